@@ -770,6 +770,9 @@ void slicer_run(lzma_stream *strm, const uint8_t *in, size_t in_size,
 			prev_noprog = true; // still "consecutive" until progress is made
 			if (res->calls >= max_calls) { res->hit_call_limit = true; break; }
 			continue;
+		} else if (plan->continue_informational && (ret == LZMA_NO_CHECK || ret == LZMA_UNSUPPORTED_CHECK || ret == LZMA_GET_CHECK)) {
+			++res->informational;
+			prev_noprog = false;
 		} else {
 			break; // STREAM_END or an error / informational code
 		}
